@@ -153,7 +153,13 @@ fn eval_sweep(req: &str) -> ImplOut {
     let name = f[2];
     let args = parse_args(f[3]);
     let text = formula_text(name, &args);
-    let res = catch_unwind(AssertUnwindSafe(|| {
+    let text2 = text.clone();
+    // watchdog: a body that loops for ever (e.g. FACT on a huge argument, see notes/C08.md) must not
+    // stall the sweep; the worker thread is abandoned and the case tagged (time, not finiteness)
+    let (tx, rx) = std::sync::mpsc::channel();
+    std::thread::spawn(move || {
+        let text = text2;
+        let res = catch_unwind(AssertUnwindSafe(|| {
         let mut m = Model::new_empty("c08", "en", "UTC", "en").unwrap();
         fill_pool(&mut m);
         // plain (scalar, or dynamic when static analysis says so) at B2; CSE 1x1 at B8; CSE 2x2 at B12:C13;
@@ -174,7 +180,13 @@ fn eval_sweep(req: &str) -> ImplOut {
             }
         };
         (bad, kind(2, 2), kind(12, 2))
-    }));
+        }));
+        let _ = tx.send(res);
+    });
+    let res = match rx.recv_timeout(std::time::Duration::from_secs(WATCHDOG_SECS)) {
+        Ok(r) => r,
+        Err(_) => return ImplOut::new("timeout".into()).tag(&format!("timeout(hang, not C08):{name}")).trivial(),
+    };
     match res {
         Ok((bad, k_plain, k_cse)) => {
             let mut out = ImplOut::new(format!("{k_plain} {k_cse}"));
@@ -202,6 +214,8 @@ fn eval_sweep(req: &str) -> ImplOut {
         Err(_) => ImplOut::new("panic".into()).tag("panic(C11's business)").trivial(),
     }
 }
+
+const WATCHDOG_SECS: u64 = 60;
 
 fn fv_kind(v: &FormulaValue) -> &'static str {
     match v {
@@ -233,8 +247,10 @@ fn gen_sweep(ctx: &Ctx, sink: &mut dyn FnMut(String)) {
             let mut args = vec![];
             for _ in 0..arity {
                 let mut i = rng.below(POOL.len() as u64) as usize;
-                if size_sensitive && matches!(i, 0 | 1 | 8 | 18) {
-                    i = 14;
+                // huge magnitudes (also the texts that cast to infinity) only where they cannot become
+                // an iteration count / allocation size
+                if size_sensitive && matches!(i, 0 | 1 | 8 | 13 | 18 | 19 | 20) {
+                    i = [14usize, 16, 17][rng.below(3) as usize];
                 }
                 let sh = shapes[rng.below(4) as usize];
                 args.push(format!("{sh}{i}"));
@@ -245,6 +261,274 @@ fn gen_sweep(ctx: &Ctx, sink: &mut dyn FnMut(String)) {
     }
 }
 
+
+// ---------------------------------------------------------------------------------------------
+// c08-store: the cells written by set_cells_with_result, compared with Eval/Store.lean
+
+const STORE_LITS: &[&str] = &["1E+308", "1", "0", "2.5", "3", "1E+300", "8E+307", "0.5"];
+
+fn fv_enc(v: &FormulaValue) -> String {
+    match v {
+        FormulaValue::Unevaluated => "u".into(),
+        FormulaValue::Boolean(b) => format!("b{}", *b as u8),
+        FormulaValue::Number(n) => format!("n{:016x}", n.to_bits()),
+        FormulaValue::Text(s) => format!("t{}", crate::proto::hex(s)),
+        FormulaValue::Error { ei, .. } => format!("e{}", err_code(ei)),
+    }
+}
+fn sv_enc(v: &SpillValue) -> String {
+    match v {
+        SpillValue::Boolean(b) => format!("b{}", *b as u8),
+        SpillValue::Number(n) => format!("n{:016x}", n.to_bits()),
+        SpillValue::Text(s) => format!("t{}", crate::proto::hex(s)),
+        SpillValue::Error(ei) => format!("e{}", err_code(ei)),
+    }
+}
+fn err_code(e: &ironcalc_base::expressions::token::Error) -> &'static str {
+    use ironcalc_base::expressions::token::Error::*;
+    match e {
+        REF => "REF",
+        NAME => "NAME",
+        VALUE => "VALUE",
+        DIV => "DIV",
+        NA => "NA",
+        NUM => "NUM",
+        ERROR => "ERROR",
+        NIMPL => "NIMPL",
+        SPILL => "SPILL",
+        CALC => "CALC",
+        CIRC => "CIRC",
+        NULL => "NULL",
+    }
+}
+
+fn dump_sheet(m: &Model) -> String {
+    let mut cells: Vec<(i32, i32, String)> = vec![];
+    for (r, row) in &m.workbook.worksheets[0].sheet_data {
+        for (c, cell) in row {
+            let s = match cell {
+                Cell::EmptyCell { .. } => "E".to_string(),
+                Cell::BooleanCell { v, .. } => format!("B:{}", *v as u8),
+                Cell::NumberCell { v, .. } => format!("N:{:016x}", v.to_bits()),
+                Cell::ErrorCell { ei, .. } => format!("X:{}", err_code(ei)),
+                Cell::SharedString { si, .. } => {
+                    format!("S:{}", crate::proto::hex(&m.workbook.shared_strings[*si as usize]))
+                }
+                Cell::CellFormula { v, .. } => format!("F:{}", fv_enc(v)),
+                Cell::ArrayFormula { r, kind, v, .. } => format!(
+                    "A:{}:{}:{}:{}",
+                    r.0,
+                    r.1,
+                    if matches!(kind, ironcalc_base::types::ArrayKind::Cse) { "c" } else { "d" },
+                    fv_enc(v)
+                ),
+                Cell::SpillCell { a, v, .. } => format!("P:{}:{}:{}", a.0, a.1, sv_enc(v)),
+            };
+            cells.push((*r, *c, s));
+        }
+    }
+    cells.sort();
+    cells.iter().map(|(r, c, s)| format!("{r},{c}={s}")).collect::<Vec<_>>().join(" ")
+}
+
+/// `c08 store <row> <col> <mode> <w> <h> <brow> <bcol> <op> <klit> <rows> <cols> <lit…>`
+/// (literals are indices into STORE_LITS; mode = plain | cse; blocker (0,0) = none)
+fn eval_store(req: &str) -> ImplOut {
+    let f: Vec<&str> = req.split(' ').collect();
+    let p = |i: usize| f[i].parse::<i32>().unwrap_or(0);
+    let (row, col, mode, w, h, brow, bcol, op) = (p(2), p(3), f[4], p(5), p(6), p(7), p(8), f[9]);
+    let k = STORE_LITS[p(10) as usize % STORE_LITS.len()];
+    let (rows, cols) = (p(11), p(12));
+    let mut lits = vec![];
+    for i in 0..(rows * cols) as usize {
+        lits.push(STORE_LITS[f[13 + i].parse::<usize>().unwrap_or(0) % STORE_LITS.len()]);
+    }
+    let mut arr = String::from("{");
+    for r in 0..rows {
+        if r > 0 {
+            arr.push(';');
+        }
+        for c in 0..cols {
+            if c > 0 {
+                arr.push(',');
+            }
+            arr.push_str(lits[(r * cols + c) as usize]);
+        }
+    }
+    arr.push('}');
+    let text = format!("={arr}{op}{k}");
+    let res = catch_unwind(AssertUnwindSafe(|| {
+        let mut m = Model::new_empty("c08", "en", "UTC", "en").unwrap();
+        if brow > 0 {
+            let _ = m.update_cell_with_number(0, brow, bcol, 7.0);
+        }
+        let entered = if mode == "cse" {
+            m.set_user_array_formula(0, row, col, w, h, &text)
+        } else {
+            m.set_user_input(0, row, col, text.clone())
+        };
+        m.evaluate();
+        (entered.is_ok(), dump_sheet(&m), scan_nonfinite(&m))
+    }));
+    match res {
+        Ok((ok, dump, bad)) => {
+            let mut out = ImplOut::new(format!("{} {dump}", ok as u8)).tag(&format!("store:{mode}"));
+            if dump.contains("eSPILL") {
+                out = out.tag("store:spill-error");
+            }
+            if dump.contains("eNUM") {
+                out = out.tag("store:belt-hit");
+            }
+            for (_s, r, c, kind, v) in bad {
+                out.oracle.push((format!("c08:nonfinite:store-{mode}-{kind}"), format!("{text} -> row {r} col {c} holds {v}")));
+            }
+            out
+        }
+        Err(_) => ImplOut::new("panic".into()).tag("panic(C11's business)").trivial(),
+    }
+}
+
+fn gen_store(ctx: &Ctx, sink: &mut dyn FnMut(String)) {
+    let mut rng = Rng::new(ctx.seed ^ 0x5708E);
+    let n = if ctx.tier == Tier::Thorough { 20_000 } else { 1_500 };
+    // corpus: F08a in all entry modes, blocked spill, sheet edges
+    for w in [
+        "2 2 plain 1 1 0 0 * 4 1 2 0 1",
+        "2 2 cse 2 1 0 0 * 4 1 2 0 1",
+        "2 2 cse 1 1 0 0 * 4 1 2 0 1",
+        "2 2 cse 3 2 0 0 * 4 1 2 0 1",
+        "2 2 plain 1 1 2 3 * 4 1 2 0 1",
+        "1048576 2 plain 1 1 0 0 + 1 2 1 1 2",
+        "2 16384 plain 1 1 0 0 + 1 1 2 1 2",
+        "2 2 plain 1 1 0 0 / 2 2 2 0 1 2 3",
+    ] {
+        sink(format!("c08 store {w}"));
+    }
+    for _ in 0..n {
+        let rows = rng.range(1, 3);
+        let cols = rng.range(1, 3);
+        let mode = if rng.chance(1, 2) { "plain" } else { "cse" };
+        let (row, col) = match rng.below(12) {
+            0 => (1_048_576, 2),
+            1 => (2, 16_384),
+            2 => (1_048_575, 16_383),
+            _ => (rng.range(1, 4) as i32, rng.range(1, 4) as i32),
+        };
+        // CSE ranges are kept inside the sheet (set_user_array_formula refuses otherwise)
+        let (w, h) = if mode == "cse" {
+            let w = rng.range(1, 3).min(16_384 - col as i64 + 1);
+            let h = rng.range(1, 3).min(1_048_576 - row as i64 + 1);
+            (w, h)
+        } else {
+            (1, 1)
+        };
+        let (brow, bcol) = if rng.chance(1, 4) {
+            (row + rng.range(0, 2) as i32, col + rng.range(0, 2) as i32)
+        } else {
+            (0, 0)
+        };
+        let (brow, bcol) = if (brow, bcol) == (row, col) || brow > 1_048_576 || bcol > 16_384 { (0, 0) } else { (brow, bcol) };
+        let op = *rng.pick(&["*", "+", "/", "-"]);
+        let k = rng.below(STORE_LITS.len() as u64);
+        let mut req = format!("c08 store {row} {col} {mode} {w} {h} {brow} {bcol} {op} {k} {rows} {cols}");
+        for _ in 0..rows * cols {
+            req.push_str(&format!(" {}", rng.below(STORE_LITS.len() as u64)));
+        }
+        sink(req);
+    }
+}
+
+// ---------------------------------------------------------------------------------------------
+// c08-typed: numeric text typed into a cell
+
+/// `c08 typed <hex text>` → `N:<bits>` | `T` | `B` | `X`
+fn eval_typed(req: &str) -> ImplOut {
+    let f: Vec<&str> = req.split(' ').collect();
+    let text = crate::proto::unhex(f[2]).unwrap_or_default();
+    let res = catch_unwind(AssertUnwindSafe(|| {
+        let mut m = Model::new_empty("c08", "en", "UTC", "en").unwrap();
+        let _ = m.set_user_input(0, 1, 1, text.clone());
+        m.evaluate();
+        let kind = match m.workbook.worksheets[0].sheet_data.get(&1).and_then(|x| x.get(&1)) {
+            Some(Cell::NumberCell { v, .. }) => format!("N:{:016x}", v.to_bits()),
+            Some(Cell::SharedString { .. }) => "T".to_string(),
+            Some(Cell::BooleanCell { .. }) => "B".to_string(),
+            Some(Cell::ErrorCell { .. }) => "X".to_string(),
+            Some(_) => "other".to_string(),
+            None => "none".to_string(),
+        };
+        (kind, scan_nonfinite(&m))
+    }));
+    match res {
+        Ok((kind, bad)) => {
+            let mut out = ImplOut::new(kind.clone()).tag(&format!("typed:{}", &kind[..1]));
+            out.nontrivial = kind.starts_with('N');
+            for (_s, r, c, k, v) in bad {
+                out.oracle.push(("c08:nonfinite:typed-number".to_string(), format!("typed {text:?} -> {k} at row {r} col {c} holds {v}")));
+            }
+            out
+        }
+        Err(_) => ImplOut::new("panic".into()).tag("panic(C11's business)").trivial(),
+    }
+}
+
+fn gen_typed(ctx: &Ctx, sink: &mut dyn FnMut(String)) {
+    let mut rng = Rng::new(ctx.seed ^ 0x7e9ed);
+    let n = if ctx.tier == Tier::Thorough { 30_000 } else { 2_500 };
+    for w in [
+        "1e999", "-1e999", "1E+309", "1.8e308", "1.7976931348623157e308", "1.7976931348623159e308", "1e308", "1e-999",
+        "5e-324", "2e-324", "1e999%", "$1e999", "1e400", "9e999999999", "1e", "1e+", ".", "-", "+5", ".5", "5.", "1..2",
+        "1e5", "1E5", "12", "0", "-0", "100%", "$3", "1.5e3", "1e-5", "e5", "1e5e", "inf", "nan", "infinity", "NaN", "-inf",
+    ] {
+        sink(format!("c08 typed {}", crate::proto::hex(w)));
+    }
+    for _ in 0..n {
+        let mut s = String::new();
+        match rng.below(6) {
+            0 => s.push('-'),
+            1 => s.push('+'),
+            _ => {}
+        }
+        if rng.chance(1, 12) {
+            s.push('$');
+        }
+        let nd = rng.range(0, 20);
+        for i in 0..nd {
+            let d = if i == 0 { rng.range(1, 9) } else { rng.range(0, 9) };
+            s.push((b'0' + d as u8) as char);
+        }
+        if rng.chance(1, 2) {
+            s.push('.');
+            for _ in 0..rng.range(0, 20) {
+                s.push((b'0' + rng.range(0, 9) as u8) as char);
+            }
+        }
+        if rng.chance(4, 5) {
+            s.push(if rng.chance(1, 2) { 'e' } else { 'E' });
+            match rng.below(3) {
+                0 => s.push('-'),
+                1 => s.push('+'),
+                _ => {}
+            }
+            let mag = match rng.below(6) {
+                0 => rng.range(0, 30),
+                1 => rng.range(290, 330),
+                2 => rng.range(300, 312),
+                3 => rng.range(320, 1000),
+                4 => rng.range(1000, 100_000),
+                _ => rng.range(0, 400),
+            };
+            if !rng.chance(1, 40) {
+                s.push_str(&format!("{mag}"));
+            }
+        }
+        if rng.chance(1, 12) {
+            s.push('%');
+        }
+        sink(format!("c08 typed {}", crate::proto::hex(&s)));
+    }
+}
+
 pub fn suites() -> Vec<Suite> {
     vec![Suite {
         name: "c08-sweep",
@@ -252,6 +536,22 @@ pub fn suites() -> Vec<Suite> {
         modelled: false,
         gen: gen_sweep,
         eval: eval_sweep,
+        exhaustive: never,
+    },
+    Suite {
+        name: "c08-store",
+        rule: "array-literal arithmetic ={a,b;c,d} op k (elements/k from 1E+308, 8E+307, 1E+300, 3, 2.5, 1, 0.5, 0; op in * + / -; 1..3 x 1..3) entered plain (dynamic by static analysis) or as CSE w x h (1..3), anchor inside the sheet or at its last row/column, optional blocking number cell in the spill area; after evaluate the WHOLE sheet (every cell: kind, spill range, anchor, value bits / error) is compared with Eval/Store.lean::store on the element-wise IEEE result; non-trivial = every case",
+        modelled: true,
+        gen: gen_store,
+        eval: eval_store,
+        exhaustive: never,
+    },
+    Suite {
+        name: "c08-typed",
+        rule: "numeric text typed through set_user_input: sign, optional $, 0..20 integer digits, optional fraction, exponent magnitudes around 0, 300..312, 320..1000, 1e3..1e5, optional %, plus a corpus (1e999, 1.7976931348623159e308, inf, nan, malformed exponents); cell kind and value bits compared with the model (Eval/Store.lean::typedCell over the exact decimal->double conversion Basic/F64.lean); oracle: no non-finite number cell; non-trivial = a number was stored",
+        modelled: true,
+        gen: gen_typed,
+        eval: eval_typed,
         exhaustive: never,
     }]
 }
